@@ -99,6 +99,10 @@ impl Row {
     /// This function will propagate errors from [`leopard_codec`] and [`Share`] construction.
     pub fn from_raw(id: RowId, row: RawRow) -> Result<Self> {
         let data_shares = row.shares_half.len();
+        if data_shares == 0 {
+            // nothing to extend or to reconstruct from; leopard_codec would panic on it
+            return Err(Error::EdsInvalidDimentions);
+        }
 
         let shares = match row.half_side() {
             RawHalfSide::Left => {
